@@ -314,16 +314,22 @@ def relock_case(idx, rng, P, rep):
     failing = rng.choice(names)
     seen = []
 
+    # (the watcher may also be interrupted from outside - Ctrl-C - while it runs)
+    interrupted = rng.random() < 0.2
+    how = '/interrupted' if interrupted else ''
+
     def boom(event):
         seen.append(event.new)
         if event.new is True:
+            if interrupted:
+                raise KeyboardInterrupt
             raise RuntimeError('watcher of the constant attribute fails')
     if rng.random() < 0.7:
         w = q.param.watch(boom, failing, what='constant')
     else:
         w = q.param.watch(boom, [failing, 'name'], what='constant')
     body_raises = rng.random() < 0.3
-    desc = dict(kind='relock', constants=names, watched=failing, body_raises=body_raises)
+    desc = dict(kind='relock', constants=names, watched=failing, body_raises=body_raises, watcher_interrupted=interrupted)
     try:
         with param.parameterized.edit_constant(q):
             for n in rng.sample(names, rng.randint(0, len(names))):
@@ -331,17 +337,19 @@ def relock_case(idx, rng, P, rep):
                 held[n] = getattr(q, n)
             if body_raises:
                 raise KeyError('body fails')
-    except (RuntimeError, KeyError):
+    except (RuntimeError, KeyError, KeyboardInterrupt):
         rep.count('blocks_raised')
     rep.count('blocks')
     rep.count('relock_failures_injected')
+    if interrupted:
+        rep.count('relock_interrupts_injected')
     q.param.unwatch(w)
     for o, label in ((q, 'the object'), (other, 'another instance')):
         for n in names + ['name']:
             rep.count('flag_probes')
             rep.count('forbidden_attempts')
             if o.param[n].constant is not True:
-                rep.violation('C14/constant-flag-left-unlocked/watcher-of-the-flag-raised', f'{label}: {n}.constant is {o.param[n].constant!r} after '
+                rep.violation('C14/constant-flag-left-unlocked/watcher-of-the-flag-raised' + how, f'{label}: {n}.constant is {o.param[n].constant!r} after '
                               f'edit_constant exited through a failing watcher of {failing}.constant', case=desc)
             before = getattr(o, n)
             try:
@@ -349,7 +357,7 @@ def relock_case(idx, rng, P, rep):
             except TypeError:
                 pass
             else:
-                rep.violation('C14/rebind-allowed-outside-block/watcher-of-the-flag-raised', f'{label}: assignment to {n} accepted after '
+                rep.violation('C14/rebind-allowed-outside-block/watcher-of-the-flag-raised' + how, f'{label}: assignment to {n} accepted after '
                               f'edit_constant exited through a failing watcher of {failing}.constant', case=desc)
             if o is q and getattr(o, n) is not held[n] and getattr(o, n) is before:
                 rep.violation('C14/held-object-changed', f'{n} changed', case=desc)
@@ -365,8 +373,13 @@ def class_relock_case(idx, rng, P, rep):
     Sub = type(f'CR{idx}S', (K,), {})
     old_inst = K()
 
+    interrupted = rng.random() < 0.2
+    how = '/interrupted' if interrupted else ''
+
     def boom(event):
         if event.new is True:
+            if interrupted:
+                raise KeyboardInterrupt
             raise RuntimeError('watcher of the constant attribute fails')
     failing = rng.random() < 0.7
     w = K.param.watch(boom, 'c', what='constant') if failing else None
@@ -384,7 +397,7 @@ def class_relock_case(idx, rng, P, rep):
                 made.append(('instance of a subclass assigned to inside', Sub()))
             if not made:
                 made.append(('instance built inside', K()))
-    except RuntimeError:
+    except (RuntimeError, KeyboardInterrupt):
         rep.count('blocks_raised')
     rep.count('blocks')
     rep.count('class_relock_cases')
@@ -401,13 +414,13 @@ def class_relock_case(idx, rng, P, rep):
             except TypeError:
                 pass
             else:
-                rep.violation('C14/rebind-allowed-outside-block/copy-made-inside-class-block', f'{label}: assignment to {n} accepted after '
+                rep.violation('C14/rebind-allowed-outside-block/copy-made-inside-class-block' + (how if failing else ''), f'{label}: assignment to {n} accepted after '
                               f'edit_constant({K.__name__}) exited' + (' through a failing watcher of c.constant' if failing else ''), case=desc)
             if getattr(o, n) is not before:
                 pass
     for C in (K, Sub):
         if C.param.c.constant is not True or C.param.d.constant is not True:
-            rep.violation('C14/class-flag-not-restored', f'{C.__name__}: constant flags c={C.param.c.constant!r} d={C.param.d.constant!r} after the '
+            rep.violation('C14/class-flag-not-restored' + (how if failing else ''), f'{C.__name__}: constant flags c={C.param.c.constant!r} d={C.param.d.constant!r} after the '
                           f'block', case=desc)
     rep.case(('class-relock', failing, tuple(l for l, _ in made)), True)
 
